@@ -37,6 +37,9 @@ def check(ck):
     r19_4(ck)
     r19_5(ck)
     r19_6(ck)
+    from . import helpers as H
+    ck.rule('R19.7', 'nested_set builds the update of one variable: walk keys[:-1] with setdefault, store under keys[-1]')
+    H.nested_set_shape(ck, 'R19.7')
 
 
 def process_classes(ck):
